@@ -22,7 +22,7 @@ CHECKS = {
                 text="Every condition tree up to the leaf bound is evaluated by the real DetectionRule.detect and apply_cluster_rules on every "
                      "gene world (boundary gaps around the cutoff, line/ring/origin) and every hit assignment, and compared with a 25-line "
                      "truth-table semantics of the documented meaning; exhaustive within the bound.",
-                note="Bounds: <=2 leaves quick, <=3 thorough, <=2 neighbours; profile names interchangeable; minscore inside cds(...) (accepted by the parser) judged as 'one single gene on its own'; reference semantics in mc/ref/rulesem.py trusted."),
+                note="Bounds: <=2 leaves quick, <=3 thorough, <=2 neighbours; one hit per profile and gene, plus genes hit twice by one profile (strong+weak, either list order) in 1-neighbour worlds; profile names interchangeable; minscore inside cds(...) (accepted by the parser) judged as 'one single gene on its own'; reference semantics in mc/ref/rulesem.py trusted."),
     "C08": dict(engine="E1+E2", level="model_checking", ref="DESIGN.md 5/C08",
                 technique="explicit-state BFS over add/create/clear histories of a real Record (membership and links in every state, build-order differential) + bounded exhaustive enumeration of gene layouts x query locations vs brute-force set-of-bases predicates",
                 text="Every set of <=3-4 genes over all intervals of a tiny line/ring and every query location (simple and origin-spanning, both flags) "
